@@ -25,7 +25,7 @@ RULE += ('; also: namespaces given as OrderedDict / UserDict / read-only mapping
 ASSUMPTIONS = ['attribute assignment on AttributesFrozendict does not change the mapping and is not judged',
                'specs whose non-callable default violates the port itself are rejected at definition time and skipped',
                'reference model written from the statement and documentation']
-REQUIRED = ['namespaces_declared_after_a_port_of_theirs', 'declared_by_dotted_paths', 'aliased_namespace_values', 'own_created_state_class', 'factory_defaults_compared', 'constructed', 'accepted', 'rejected', 'defaults_populated', 'callable_defaults', 'populate_defaults_false', 'dynamic_values', 'immutability_probes',
+REQUIRED = ['failing_factory_defaults', 'specs_built_at_the_second_attempt', 'namespaces_declared_after_a_port_of_theirs', 'declared_by_dotted_paths', 'aliased_namespace_values', 'own_created_state_class', 'factory_defaults_compared', 'constructed', 'accepted', 'rejected', 'defaults_populated', 'callable_defaults', 'populate_defaults_false', 'dynamic_values', 'immutability_probes',
             'caller_dict_checks', 'metamorphic/idempotent', 'metamorphic/remove_required', 'metamorphic/wrong_type', 'nested_ns_levels', 'exposed_specs', 'legacy_validators', 'aliased_namespace_values', 'mapping_leaf_values']
 BOUNDS = {'quick': '250 specs (depth<=2) x 40 inputs', 'thorough': '4000 specs (depth<=3) x 60 inputs'}
 UN = '<absent>'
@@ -134,7 +134,12 @@ def ns_partial():
     return {'n': 5}
 
 
-CALLABLES = {'ns_empty': ns_empty, 'ns_partial': ns_partial, 'd7': d7, 'd_s': d_s, 'cls_A': A, 'cls_list': list, 'serial': Serial}  # (a class is a callable default like any other: evaluated per construction)
+def d_boom():
+    """A factory that cannot produce its value right now (the resource it reads is not there): no value, no process."""
+    raise LookupError('the default cannot be worked out')
+
+
+CALLABLES = {'d_boom': d_boom, 'ns_empty': ns_empty, 'ns_partial': ns_partial, 'd7': d7, 'd_s': d_s, 'cls_A': A, 'cls_list': list, 'serial': Serial}  # (a class is a callable default like any other: evaluated per construction)
 NAMES = ['a', 'ab', 'n', 'm', 'x']
 
 
@@ -193,7 +198,9 @@ def rand_port(rng):
     if vt:
         attrs['valid_type'] = vt
     if rng.random() < 0.35:
-        if rng.random() < 0.3 and vt in (None, 'int', 'intstr', 'str'):
+        if rng.random() < 0.06:
+            attrs['default'] = ['call', 'd_boom']  # (a factory that fails: without a value for the port no process can be made)
+        elif rng.random() < 0.3 and vt in (None, 'int', 'intstr', 'str'):
             attrs['default'] = ['call', 'd_s' if vt == 'str' else 'd7']
         elif rng.random() < 0.3 and vt in (None, 'A'):
             attrs['default'] = ['call', 'cls_A' if vt == 'A' else rng.choice(['cls_A', 'cls_list', 'serial'])]
@@ -427,6 +434,7 @@ def build(ns, children):
 
 
 _CLS = {}
+FLAKY_DEFINES = []
 
 
 class Queued(plumpy.process_states.State):
@@ -547,8 +555,16 @@ def spec_class(spec, si, exposed=False, dotted=False):
         return _CLS[key]
     top_attrs, children = spec[1], spec[2]
 
+    flaky = {'left': 1 if si % 7 == 3 else 0}
+
     def define(cls, pspec):
         super(cls, cls).define(pspec)
+        if flaky['left']:
+            # (every seventh class: the first attempt to build its spec fails half-way for a reason that has nothing to do with the
+            # declarations -- something it looks up is not there yet; the next attempt builds the whole spec)
+            flaky['left'] -= 1
+            FLAKY_DEFINES.append(si)
+            raise LookupError('a resource needed to define the spec is not available yet')
         for k, v in _port_kwargs(top_attrs).items():
             setattr(pspec.inputs, k, v)
         build(pspec.inputs, children)
@@ -558,7 +574,10 @@ def spec_class(spec, si, exposed=False, dotted=False):
     cls.define = classmethod(define)
     generated.register(cls)
     try:
-        cls.spec()
+        try:
+            cls.spec()
+        except LookupError:
+            cls.spec()  # (the second attempt, after the transient failure of the first)
     except ValueError as exc:
         cls = ('spec-error', str(exc))
     _CLS[key] = cls
@@ -587,6 +606,9 @@ def model_populate(children, given, stats):
                 continue
             if 'default' in attrs:
                 kind, val = attrs['default']
+                if kind == 'call' and val == 'd_boom':
+                    stats['failing_factory_defaults'] = stats.get('failing_factory_defaults', 0) + 1
+                    raise Reject('the factory of the default of %s fails' % name)
                 v = CALLABLES[val]() if kind == 'call' else copy.deepcopy(_real(val))
                 stats['defaults_populated'] = stats.get('defaults_populated', 0) + 1
                 if kind == 'call':
@@ -735,7 +757,7 @@ def run_case(case):
     cls = spec_class(spec, case['si'], exposed=case.get('exposed') or False, dotted=case.get('dotted') or False)
     if case.get('exposed') == 'extra':
         spec = with_extra_port(spec)  # (what the exposing class declares, for the model and the shape in messages)
-    obs = {'namespaces_declared_after_a_port_of_theirs': int(case.get('dotted') == 'redeclare'), 'declared_by_dotted_paths': int(bool(case.get('dotted'))), 'aliased_namespace_values': int('@SAME' in json.dumps(inputs_desc)), 'exposed_specs': int(bool(case.get('exposed'))), 'legacy_validators': int('_old' in json.dumps(spec)), 'constructed': 0, 'accepted': 0, 'rejected': 0, 'defaults_populated': 0, 'callable_defaults': 0, 'populate_defaults_false': 0,
+    obs = {'specs_built_at_the_second_attempt': int(case['si'] in FLAKY_DEFINES and not case.get('dotted')), 'namespaces_declared_after_a_port_of_theirs': int(case.get('dotted') == 'redeclare'), 'declared_by_dotted_paths': int(bool(case.get('dotted'))), 'aliased_namespace_values': int('@SAME' in json.dumps(inputs_desc)), 'exposed_specs': int(bool(case.get('exposed'))), 'legacy_validators': int('_old' in json.dumps(spec)), 'constructed': 0, 'accepted': 0, 'rejected': 0, 'defaults_populated': 0, 'callable_defaults': 0, 'populate_defaults_false': 0,
            'dynamic_values': 0, 'immutability_probes': 0, 'caller_dict_checks': 0, 'metamorphic': {}, 'nested_ns_levels': 0, 'spec_errors': 0}
     if isinstance(cls, tuple):
         obs['spec_errors'] = 1
@@ -751,7 +773,7 @@ def run_case(case):
         why = ''
     except Reject as rej:
         expected, verdict, why = None, 'reject', str(rej)
-    for k in ('defaults_populated', 'callable_defaults', 'populate_defaults_false', 'dynamic_values'):
+    for k in ('defaults_populated', 'callable_defaults', 'populate_defaults_false', 'dynamic_values', 'failing_factory_defaults'):
         obs[k] = stats.get(k, 0)
     obs['nested_ns_levels'] = 1 if stats.get('nested_ns_levels', 0) >= 2 else 0
     proc, exc = _construct(cls, inputs)
